@@ -87,5 +87,7 @@ def rule_update_conf(ctx: RuleContext, p: Program, rid: str) -> None:
 def run(ctx: RuleContext, p: Program) -> None:
     ctx.try_rule(rule_tokset_conf, p, 'TOKSET-CONF')
     ctx.try_rule(rule_update_conf, p, 'UPDATE-CONF')
+    from . import presence
+    ctx.try_rule(presence.rule_presence_truth, p, 'PRESENCE-TRUTH')
     ctx.not_decided += ['that the printed text equals the input with exactly that span replaced (runtime equality; follows from C01 + these)']
     ctx.assumptions += ['primitive: Token._update_raw_text is the single text-changing routine (OWN-TEXT, C08)']
